@@ -23,6 +23,14 @@ type Pair struct {
 	closed [2]bool     // endpoint i called Close
 	mon    Monitor
 	Ends   [2]*End
+
+	// write gate: while holdOn, WritePacket calls of endpoint holdEp whose first byte is holdTyp
+	// wait (as writePacket does during a key exchange) until Release.
+	holdOn   bool
+	holdEp   int
+	holdTyp  byte
+	holding  int
+	holdCond *sync.Cond
 }
 
 type End struct {
@@ -36,6 +44,7 @@ func NewPair(mon Monitor) *Pair {
 	p := &Pair{mon: mon}
 	p.cond[0] = sync.NewCond(&p.mu)
 	p.cond[1] = sync.NewCond(&p.mu)
+	p.holdCond = sync.NewCond(&p.mu)
 	p.Ends[0] = &End{p, 0}
 	p.Ends[1] = &End{p, 1}
 	return p
@@ -47,6 +56,13 @@ func (e *End) WritePacket(pkt []byte) error {
 	p := e.p
 	p.mu.Lock()
 	defer p.mu.Unlock()
+	if p.holdOn && e.i == p.holdEp && len(pkt) > 0 && pkt[0] == p.holdTyp && !p.closed[e.i] && !p.closed[1-e.i] {
+		p.holding++
+		for p.holdOn {
+			p.holdCond.Wait()
+		}
+		p.holding--
+	}
 	if p.closed[e.i] || p.closed[1-e.i] {
 		return ErrClosed
 	}
@@ -105,6 +121,28 @@ func (e *End) Close() error {
 	p.cond[1].Broadcast()
 	p.mu.Unlock()
 	return nil
+}
+
+// SetHold makes WritePacket calls of endpoint ep with message type typ wait until Release.
+func (p *Pair) SetHold(ep int, typ byte) {
+	p.mu.Lock()
+	p.holdOn, p.holdEp, p.holdTyp = true, ep, typ
+	p.mu.Unlock()
+}
+
+// Release opens the write gate and lets the held writers continue.
+func (p *Pair) Release() {
+	p.mu.Lock()
+	p.holdOn = false
+	p.holdCond.Broadcast()
+	p.mu.Unlock()
+}
+
+// Holding returns the number of writers currently held by the gate.
+func (p *Pair) Holding() int {
+	p.mu.Lock()
+	defer p.mu.Unlock()
+	return p.holding
 }
 
 // Closed reports whether endpoint i has called Close.
